@@ -2,8 +2,16 @@
 package main
 
 import (
+	"os"
+
 	"github.com/formancehq/numscript/internal/verifmc/mc"
-	_ "github.com/formancehq/numscript/internal/verifmc/props"
+	"github.com/formancehq/numscript/internal/verifmc/props"
 )
 
-func main() { mc.Main() }
+func main() {
+	if os.Getenv("VERIF_RACE_PASS") == "1" {
+		props.RacePass() // body of the free-running -race build (C11)
+		return
+	}
+	mc.Main()
+}
